@@ -35,6 +35,10 @@ type VSource struct {
 	chunk     func(reader int, call int) int // seeded chunk size per read call
 	errEvery  int                            // every n-th read of a reader returns a retryable error (0 = never)
 	readSizes []int
+	// Late > 0 (armed): the first splitter incarnation holds the last Late splits back at Start and hands them out
+	// in a second AssignSplits round when ReleaseLate is called (like child shards discovered later)
+	Late     int
+	lateHeld *vSplitter
 }
 
 type Assignment struct {
@@ -88,6 +92,37 @@ func (s *VSource) NewSourceSplitter(ids []string, hooks connectors.SourceSplitte
 	return &vSplitter{src: s, ids: append([]string{}, ids...), hooks: hooks, gen: s.splitGen}
 }
 
+// HeldLate is the number of splits currently held back for the second assignment round.
+func (s *VSource) HeldLate() int {
+	s.mu.Lock()
+	defer s.mu.Unlock()
+	if s.lateHeld == nil {
+		return 0
+	}
+	return s.Late
+}
+
+// ReleaseLate hands the held-back splits to their runners in a second assignment round (no-op when none are held).
+func (s *VSource) ReleaseLate() bool {
+	s.mu.Lock()
+	sp := s.lateHeld
+	s.lateHeld = nil
+	if sp == nil {
+		s.mu.Unlock()
+		return false
+	}
+	as := map[string][]*workerpb.SourceSplit{}
+	for i := s.Splits - s.Late; i < s.Splits; i++ {
+		id := fmt.Sprint(i)
+		r := sp.ids[i%len(sp.ids)]
+		as[r] = append(as[r], &workerpb.SourceSplit{SplitId: id})
+		s.assigns = append(s.assigns, Assignment{Tick: lib.Tick.Add(1), Splitter: sp.gen, Runner: r, SplitID: id})
+	}
+	s.mu.Unlock()
+	sp.hooks.AssignSplits(as)
+	return true
+}
+
 // Assignments returns the AssignSplits log.
 func (s *VSource) Assignments() []Assignment {
 	s.mu.Lock()
@@ -115,7 +150,16 @@ func (s *VSource) CaughtUp(liveReaders func(*VReader) bool) bool {
 		}
 		r.mu.Unlock()
 	}
+	s.mu.Lock()
+	held := 0
+	if s.lateHeld != nil {
+		held = s.Late
+	}
+	s.mu.Unlock()
 	for i, b := range best {
+		if i >= s.Splits-held {
+			continue // not handed out yet
+		}
 		if b < lim[i] {
 			return false
 		}
@@ -149,7 +193,14 @@ func (s *vSplitter) Start(ck *snapshotpb.SourceCheckpoint) error {
 		as[id] = nil
 	}
 	s.src.mu.Lock()
-	for i := 0; i < s.src.Splits; i++ {
+	first := s.src.Splits
+	if s.src.Late > 0 && s.src.Late < s.src.Splits && s.gen == 1 && len(cur) == 0 {
+		first = s.src.Splits - s.src.Late
+		s.src.lateHeld = s
+	} else {
+		s.src.lateHeld = nil // a later incarnation hands out everything
+	}
+	for i := 0; i < first; i++ {
 		id := fmt.Sprint(i)
 		r := s.ids[i%len(s.ids)]
 		sp := &workerpb.SourceSplit{SplitId: id}
